@@ -676,6 +676,39 @@ fn near_order_sweep(ctx: &mut Ctx) {
     ctx.exhaustive("scalars j, N-j, N+j for j in 0..=200 (thorough 1200) on P1 (fixed-base and variable-base) and, thinned, on P2", true);
 }
 
+/// bases that are the generators, their negatives or (negated) table points, affine and re-randomised
+fn generator_bases(ctx: &mut Ctx) {
+    let pr = r9::params();
+    let mut pg = ctx.prng("gen_bases");
+    let mut bi = 0u64;
+    let mults: Vec<BigUint> = vec![BigUint::one(), BigUint::from(2u32), BigUint::from(63u32), BigUint::one() << 7, BigUint::from(3u32) << 70, BigUint::one() << 252];
+    for m in &mults {
+        for negate in [false, true] {
+            for zk in 0..2u64 {
+                bi += 1;
+                let sub = pg.next();
+                if !ctx.mine(bi) {
+                    continue;
+                }
+                let mut p = Prng::new(sub, "gb");
+                let b1 = r9::g1_mul(m, &r9::g1_gen());
+                let b1 = if negate { r9::g1_neg(&b1) } else { b1 };
+                let b2 = r9::g2_mul(m, &r9::g2_gen());
+                let b2 = if negate { r9::g2_neg(&b2) } else { b2 };
+                let (l1, l2) = if zk == 0 { (BigUint::one(), (BigUint::one(), BigUint::zero())) } else { (rand_scalar(&mut p, &pr.p), (rand_scalar(&mut p, &pr.p), rand_scalar(&mut p, &pr.p))) };
+                let lb1 = r9::lib_g1(b1.as_ref().unwrap(), &l1);
+                let lb2 = r9::lib_g2(b2.as_ref().unwrap(), &l2);
+                for k in [BigUint::one(), BigUint::from(2u32), &pr.n - 1u32, rand_scalar(&mut p, &pr.n)] {
+                    let lk = limbs(&k);
+                    ctx.class("base_is_(negated)_generator_or_table_point");
+                    same_g1(ctx, "point_mul", "base_is_(negated)_generator_or_table_point", guard(|| lb1.point_mul(&lk)), &r9::g1_mul(&k, &b1), json!({"m": hl(&limbs(m)), "negated": negate, "k": hl(&lk)}));
+                    same_g2(ctx, "point_mul", "base_is_(negated)_generator_or_table_point", guard(|| lb2.point_mul(&lk)), &r9::g2_mul(&k, &b2), json!({"m": hl(&limbs(m)), "negated": negate, "k": hl(&lk)}));
+                }
+            }
+        }
+    }
+}
+
 fn group_layer(ctx: &mut Ctx) {
     let pr = r9::params();
     let n = ctx.n(160, 12_000);
@@ -873,7 +906,7 @@ pub fn run(ctx: &mut Ctx) {
         "Fp12::fp_mul", "Fp12::fp_sqr", "Fp12::fp_inv", "Fp12::frobenius^1", "Fp12::frobenius^2", "Fp12::frobenius^3", "Fp12::frobenius^6", "Fp12::fp_line_mul", "Fp12::pow", "Fp12::final_exponent", "fp12_zero_subset", "fp12_c2_zero_branch",
         "sm9_u256_primitives", "mod_n_add", "mod_n_sub", "mod_n_mul", "mod_n_inv", "mod_n_pow", "mod_n_mul_product_shape", "fp_mul_product_shape", "booth_w5", "booth_w7", "booth_recomposition", "table_entry", "table_scalar", "table_scalar_negated",
         "G1::point_add", "G1::point_double", "G1::point_mul", "G1::g_mul", "G1::point_equals", "G1::is_on_curve", "G2::point_add", "G2::twist_point_add_full", "G2::point_double", "G2::point_mul", "G2::g_mul", "G2::point_equals", "G2::point_pi1",
-        "P_eq_Q_diff_Z", "P_eq_negQ_diff_Z", "P_ne_Q_rhs_Z!=1", "consecutive_negated_base", "consecutive_same_point_other_Z", "infinity_arbitrary_XY", "k=0", "k=N", "k=N+1", "k=2^256-1", "k=random", "k=sparse_limbs", "k=runs_of_ones", "pow_sparse_exponent", "G1::infinity_equals_infinity", "near_order_sweep",
+        "P_eq_Q_diff_Z", "P_eq_negQ_diff_Z", "P_ne_Q_rhs_Z!=1", "consecutive_negated_base", "consecutive_same_point_other_Z", "infinity_arbitrary_XY", "k=0", "k=N", "k=N+1", "k=2^256-1", "k=random", "k=sparse_limbs", "k=runs_of_ones", "pow_sparse_exponent", "G1::infinity_equals_infinity", "near_order_sweep", "base_is_(negated)_generator_or_table_point",
     ]);
     tower_layer(ctx);
     modn_layer(ctx);
@@ -881,6 +914,7 @@ pub fn run(ctx: &mut Ctx) {
     booth_layer(ctx);
     table_layer(ctx);
     near_order_sweep(ctx);
+    generator_bases(ctx);
     group_layer(ctx);
     ctx.sample(json!({"tower_case": "Fp12 element with tower coefficients (c000..c211) where the components selected by a 12-bit mask are zero; mul/sqr/inv/neg/div2/double/triple/Frobenius^{1,2,3,6} compared with Fp[w]/(w^12+2) arithmetic"}));
     ctx.sample(json!({"group_case": "P=[k]P2 in Jacobian (Z in Fp2: 1, u, a, p-1, a+bu); add (mixed and full), P+P different Z, P+(-P), infinity forms, double, neg, sub, [k]P, point_equals on (P,P'), (P,-P), (P,Q)"}));
